@@ -68,11 +68,22 @@ PosDef(M) == /\ Symmetric(M)
 
 Residual(A, f, x) == VSub(f, MatVec(A, x))
 
-\* Krylov vectors  v, B v, ..., B^(k-1) v
+\* the primitive integer vector on the ray of v (spans are what the definitions use; this keeps
+\* the numbers of the Gram matrices small)
+RECURSIVE GcdSeq(_)
+GcdSeq(s)  == IF s = <<>> THEN 0 ELSE GCD(RAbsI(s[1]), GcdSeq([k \in 1..(Len(s) - 1) |-> s[k + 1]]))
+RECURSIVE LcmSeq(_)
+LcmSeq(s)  == IF s = <<>> THEN 1 ELSE LET l == LcmSeq([k \in 1..(Len(s) - 1) |-> s[k + 1]]) IN (s[1] \div GCD(s[1], l)) * l
+VPrim(v)   == IF IsZeroVec(v) THEN v
+              ELSE LET L == LcmSeq([i \in 1..Len(v) |-> v[i][2]])
+                       w == [i \in 1..Len(v) |-> v[i][1] * (L \div v[i][2])]
+                       g == GcdSeq(w)
+                   IN  [i \in 1..Len(v) |-> R(w[i] \div g)]
+\* Krylov vectors  v, B v, ..., B^(k-1) v, each rescaled to its primitive vector
 RECURSIVE KrylovSeq(_, _, _)
 KrylovSeq(B, v, k) == IF k = 0 THEN <<>>
-                      ELSE IF k = 1 THEN <<v>>
-                      ELSE LET prev == KrylovSeq(B, v, k - 1) IN Append(prev, MatVec(B, prev[k - 1]))
+                      ELSE IF k = 1 THEN <<VPrim(v)>>
+                      ELSE LET prev == KrylovSeq(B, v, k - 1) IN Append(prev, VPrim(MatVec(B, prev[k - 1])))
 Gram(V, W)   == [i \in 1..Len(V) |-> [j \in 1..Len(W) |-> Dot(V[i], W[j])]]
 MatMul(A, B) == [i \in 1..Len(A) |-> [j \in 1..Len(B[1]) |-> QSumSeq([l \in 1..Len(B) |-> QMul(A[i][l], B[l][j])])]]
 
